@@ -119,11 +119,21 @@ class DirHandler(BaseHandler):
         if time.time() - statval[stat.ST_MTIME] < self.cachetime:
             try:
                 with self.vfs.open(self.cachename, "rb") as fp:
-                    self.fileentries = pickle.load(fp)
+                    cached = pickle.load(fp)
             except Exception:
                 # A truncated or otherwise unreadable cache file (killed
                 # writer, full disk, concurrent rewrite) is a cache miss.
                 return False
+            # The entries carry selectors: a cache written for another
+            # selector of the same directory (reached through a symlink)
+            # is not ours.
+            if not (
+                isinstance(cached, tuple)
+                and len(cached) == 2
+                and cached[0] == self.selector
+            ):
+                return False
+            self.fileentries = cached[1]
             self.fromcache = True
             return True
         return False
@@ -136,6 +146,6 @@ class DirHandler(BaseHandler):
             return
         try:
             with self.vfs.open(self.cachename, "wb") as fp:
-                pickle.dump(self.fileentries, fp, 1)
+                pickle.dump((self.selector, self.fileentries), fp, 1)
         except IOError:
             pass
